@@ -900,10 +900,12 @@ def expected_findings(spec, opts):
     if spec.get("groups") and opts.get("group", True) is not False and len(toks) > len(set(map(str, toks))):
         out.append("grouped:cell-methods-naming-an-axis-twice-misread")
     # netCDF-C 4.9.3 / HDF5 1.14.6: a dataset is open; its netCDF-string variables are read through further handles
-    # (what cfdm.read does for string-valued scalar coordinate variables): the third one crashes the interpreter
-    if n_string_scalars(spec) >= 3 and opts.get("fmt", "NETCDF4") == "NETCDF4" and opts.get("string", True) and \
+    # (what cfdm.read does for string-valued scalar coordinate variables): the third such read crashes the interpreter.
+    # Seen with three scalar string coordinates, and with two plus a cell method over one of them plus a 1-d string
+    # coordinate; never with one.  The class explains a crash only: any other failure of such a case is reported.
+    if n_string_scalars(spec) >= 2 and opts.get("fmt", "NETCDF4") == "NETCDF4" and opts.get("string", True) and \
             (opts.get("read") or {}).get("netcdf_backend") != "h5netcdf":
-        out.insert(0, "three-netcdf-string-scalar-coordinates-crash-the-netcdf-library")
+        out.insert(0, "netcdf-string-scalar-coordinates-crash-the-netcdf-library")
     # size-1 axes that the data do not span
     for a in range(len(spec["axes"])):
         if a in sp:
@@ -957,6 +959,7 @@ def symptoms(r):
 # field (content hashes, hence every label) and explains any symptom; for the others, a symptom outside the
 # set is a second, unrelated failure of the same case and is reported on its own.
 SIG_SYMPTOMS = {
+    "netcdf-string-scalar-coordinates-crash-the-netcdf-library": {"crash"},
     "endian-big-read-back-dtype-not-equal": {"equals"},
     "construct-without-axes-equals-raises": {"equals", "equals_err"},
     "grid-mapping-coordinates-not-implied-by-name": {"equals", "fp:refs"},
@@ -1201,7 +1204,7 @@ def oracle(chk, cases, rows, stats):
                       "observed": r["pre_fail"]})
         if "crash" in r:
             explained.add(c["i"])
-            chk.fail("property", exp[0] if exp and exp[0].startswith("three-netcdf-string") else "worker-crash", f"the interpreter died while writing/reading: {r['crash'][:120]}",
+            chk.fail("property", exp[0] if exp and exp[0].startswith("netcdf-string-scalar") else "worker-crash", f"the interpreter died while writing/reading: {r['crash'][:120]}",
                      {"input": c, "expected": "a round trip", "observed": r})
             continue
         if "harness_err" in r and "n_read" not in r:
@@ -1290,15 +1293,16 @@ def n_string_scalars(spec):
 
 
 def limit_string_scalars(rng, spec, opts):
-    """At most two netCDF-string scalar coordinates (see three-netcdf-string-scalar-coordinates-...): the others become
-    numeric scalar dimension coordinates."""
+    """One netCDF-string scalar coordinate (see netcdf-string-scalar-coordinates-crash-...; two or three in a 15 % probe):
+    the others become numeric scalar dimension coordinates."""
     if opts.get("fmt", "NETCDF4") != "NETCDF4" or opts.get("string", True) is False:
         return spec
     sp, k = spanned(spec), 0
+    keep = 1 if rng.random() >= 0.15 else 3
     for c in spec["cons"]:
         if c["type"] == "aux" and c.get("dtype") == "S" and len(c["axes"]) == 1 and c["axes"][0] not in sp:
             k += 1
-            if k > 2:
+            if k > keep:
                 c.update({"type": "dim", "dtype": "f8", "props": {"long_name": c["props"].get("long_name", "x")}})
     return spec
 
